@@ -52,6 +52,9 @@ type oracle struct {
 	work  string
 	fails []failRec
 	perK  map[string]int
+	seed  uint64
+	tier  string
+	extra string
 }
 
 func (or *oracle) fail(sig, kind string, j *Job, mode, what, class string, a, b *Res, ta, tb string) {
@@ -73,6 +76,8 @@ func (or *oracle) fail(sig, kind string, j *Job, mode, what, class string, a, b 
 		"a": fmt.Sprintf("gates=%d circ=%s/%d ssa=%s init=%v err=%q", a.Gates, a.CircHash, a.CircLen, a.SSAHash, a.InitLabels, a.Err),
 		"b": fmt.Sprintf("gates=%d circ=%s/%d ssa=%s init=%v err=%q", b.Gates, b.CircHash, b.CircLen, b.SSAHash, b.InitLabels, b.Err),
 		"source": clipS(j.Src, 1500),
+		"rerun_single": fmt.Sprintf("go build -tags verif -o /tmp/c08 ./cmd/c08 (in /verif/harness) && MPCLDIR=$REPO /tmp/c08 oracle -seed %d -tier %s%s -only %d -ops /tmp/c08.ops -out /tmp/c08.out -meta /tmp/c08.meta.json",
+			or.seed, or.tier, or.extra, j.Index),
 	}
 	if ta != "" && tb != "" && ta != tb {
 		d["ssa_diff"] = firstDiff(ta, tb)
@@ -516,7 +521,10 @@ func runOracle(cf *hxlib.CommonFlags, o *hxlib.Out) {
 	work = filepath.Join(work, fmt.Sprintf("c08-%d", cf.Seed))
 	os.MkdirAll(work, 0o755)
 	defer os.RemoveAll(work)
-	or := &oracle{o: o, repo: repo, work: work, perK: map[string]int{}}
+	or := &oracle{o: o, repo: repo, work: work, perK: map[string]int{}, seed: cf.Seed, tier: cf.Tier}
+	if cf.Extra != "" {
+		or.extra = " -extra " + cf.Extra
+	}
 	quick := cf.Tier == "quick" || cf.Extra == "light"
 	tier := cf.Tier
 	ngen := 10
